@@ -10,7 +10,7 @@ func init() {
 	vpRegister("vpH_C19_fault", vpH_C19_fault)
 }
 
-var vpFaultOps = []string{"Dictionary(a)", "Dictionary(_id)", "PostingsList+iterate", "VisitStoredFields", "DocumentValues", "DocsMatchingTerms", "CollectionStats"}
+var vpFaultOps = []string{"Dictionary(a)", "Dictionary(_id)", "PostingsList+iterate", "VisitStoredFields", "DocumentValues", "DocsMatchingTerms", "CollectionStats", "PostingsList(location-free term)+iterate with locations"}
 
 // vpFaultOp runs read API calls on a file-backed segment.  After each single
 // API call `chk` is told its error and whether its result was empty: a call
@@ -43,8 +43,12 @@ func vpFaultOp(k int, seg *Segment, file *vpFile) {
 				return
 			}
 		}
-	case 2:
-		d, err := seg.Dictionary("a")
+	case 2, 7:
+		fld := "a"
+		if k == 7 {
+			fld = "b" // no term of this field has locations: the location stream is not encoded
+		}
+		d, err := seg.Dictionary(fld)
 		if chk("Dictionary", err, false) {
 			return
 		}
@@ -97,7 +101,8 @@ func vpFaultOp(k int, seg *Segment, file *vpFile) {
 func vpH_C19_fault() {
 	g := vpNewGen(0)
 	docs := []*vpDoc{g.doc(2, 0), g.doc(5, 1), g.doc(9, 2)}
-	b := vpPersist(vpBuild(docs, 1025))
+	// one chunk for all documents, or one chunk per document (chunk loads between postings)
+	b := vpPersist(vpBuild(docs, []uint32{1025, 1}[vpChoice("mode", 2)]))
 	seg, file := vpLoadFile(b)
 	// fault-free reference run of the same call sequence counts the reads
 	n3, maxK := 2, uint64(12)
